@@ -68,7 +68,7 @@ def main():
     try:
         place_demo(wt, demo, shell_demo)
         race = "-race" if "race" in (meta.get("demo_cmd", "") + meta.get("needs_to_manifest", "")).lower() and "-race" in meta.get("demo_cmd", "") else ""
-        demo_cmd = "go test -vet=off -count=1 %s -run '^%s$' ./tests/" % (race, test_name)
+        demo_cmd = "go test -vet=off -count=1 %s -run '^%s' ./tests/" % (race, test_name)
         if shell_demo:
             demo_cmd = "sh seeded/1/demo.sh"
         rc0, o0 = sh(demo_cmd, wt)
